@@ -92,7 +92,45 @@ def grid_cases(ctx):
         il = coqlist(["None" if it is None else f"(Some {enc(it)})" for it in got_items])
         items.append(f"KGrid {gl} {n}%nat {coqlist([enc(p) for p in pts])} {il}")
         metas.append(meta)
+    container_forms(ctx, subs)
     return items, metas
+
+
+def container_forms(ctx, subs):
+    """the documented value containers other than lists (tuples, one-dimensional numpy arrays, a tuple of sub-grids) give the same grid; malformed ones are rejected"""
+    import numpy as np
+    from pyvolutionary.hypertuner import ParameterGrid
+    r = ctx.rng
+    canon = lambda pts: [{k: int(v) for k, v in p.items()} for p in pts]
+    forms = {"tuple": tuple, "ndarray": np.array, "ndarray-int32": lambda v: np.array(v, dtype=np.int32), "range": lambda v: range(v[0], v[0] + len(v))}
+    n = 0
+    for sg in r.sample(subs, min(len(subs), 60 if ctx.quick else len(subs))):
+        if not sg: continue
+        ref = ParameterGrid(sg); want = list(ref)
+        for fname, f in forms.items():
+            g2 = {k: f(v) for k, v in sg.items()}
+            for outer in (g2, [g2], (g2, {})):
+                meta = {"grid": repr(outer), "form": fname}
+                w = want + ([{}] if isinstance(outer, tuple) else [])
+                try:
+                    pg = ParameterGrid(outer)
+                    got = canon(list(pg)); ln = len(pg); byidx = canon([pg[i] for i in range(ln)])
+                except Exception as e:
+                    ctx.violation("grid:valid container rejected", f"ParameterGrid({outer!r}) ({fname} values) raised {type(e).__name__}: {e}", meta); continue
+                n += 1
+                if got != w or ln != len(w) or byidx != w:
+                    ctx.violation("grid:container form changes the grid", f"ParameterGrid({outer!r}): iteration {got!r}, len {ln}, indexing {byidx!r}; the list form gives {w!r}", meta)
+    bad = [({"a": []}, "empty value list"), ({"a": "xy"}, "a string of values"), ({"a": 3}, "a scalar"), ({"a": np.zeros((2, 2))}, "a two-dimensional array"),
+           ([{"a": [1]}, [("b", [2])]], "a sub-grid that is not a dict"), (7, "not a grid")]
+    for g, what in bad:
+        try:
+            ParameterGrid(g)
+        except (TypeError, ValueError):
+            continue
+        except Exception as e:
+            ctx.violation("grid:malformed grid", f"{what}: ParameterGrid({g!r}) raised {type(e).__name__} instead of TypeError / ValueError", {"grid": repr(g)}); continue
+        ctx.violation("grid:malformed grid accepted", f"{what}: ParameterGrid({g!r}) was accepted", {"grid": repr(g)})
+    ctx.coverage["grid_container_forms"] = {"accepted_forms_compared": n, "malformed_rejected": len(bad)}
 
 
 def execute_cases(ctx, items, metas):
